@@ -129,7 +129,7 @@ def extract_fragment(mi, fnode, fragment):
     """'while:0' / 'for:2' -> the n-th loop statement (source order, nested function bodies excluded) of the function, returned
     as a marker object; the contract turns it into a function whose parameters are the fragment's free variables"""
     kind, _, ordn = fragment.partition(":")
-    cls = {"while": ast.While, "for": ast.For, "forbody": ast.For}[kind]
+    cls = {"while": ast.While, "for": ast.For, "forbody": ast.For, "if": ast.If}[kind]
     found = []
     todo = list(fnode.body)
     allnodes = []
